@@ -139,7 +139,9 @@ Theorem C09_add_appends_and_attaches :
   forall h d db o, InvDB h d db ->
     rejected h (db_add d o h) \/
     exists db' h' ob k, db_add d o h = (h', Ok tt) /\ InvDB h' d db' /\ nth_error h o = Some ob /\ okind ob = Some k /\
-       member h' d k o /\ (k <> KProject -> klist k db' = klist k db ++ [o]) /\ (k = KProject -> klist k db' = [o]).
+       member h' d k o /\ (k <> KProject -> klist k db' = klist k db ++ [o]) /\ (k = KProject -> klist k db' = [o]) /\
+       (* the lists of the other classes are untouched, and no name of the index is lost *)
+       others k db db' /\ dict_mono db db'.
 Proof. exact db_add_step. Qed.
 Print Assumptions C09_add_appends_and_attaches.
 
@@ -154,7 +156,8 @@ Print Assumptions C09_delete_removes_and_detaches.
 Theorem C09_new_project_replaces_old :
   forall h d db o p0, InvDB h d db -> nth_error h o = Some (OProject p0) ->
   exists db' h', db_add_project d o h = (h', Ok tt) /\ InvDB h' d db' /\ klist KProject db' = [o] /\ member h' d KProject o /\
-    (forall q, d_project db = Some q -> q <> o -> exists ob, nth_error h' q = Some ob /\ okind ob = Some KProject /\ oowner ob = None).
+    (forall q, d_project db = Some q -> q <> o -> exists ob, nth_error h' q = Some ob /\ okind ob = Some KProject /\ oowner ob = None) /\
+    others KProject db db'.
 Proof. exact add_project_step. Qed.
 Print Assumptions C09_new_project_replaces_old.
 
